@@ -488,8 +488,14 @@ def _run_task_symbolic(modname, params, opts, t0):
 
     if do_profile:
         sys.setprofile(_profiler(os.path.realpath(_PK.repo)))
+    guides = []
+    if getattr(mod, "GUIDED", False) and hasattr(mod, "test_vectors"):
+        try:
+            guides = [dict(v) for v in mod.test_vectors(params)][: getattr(mod, "GUIDED_N", 3)]
+        except Exception:  # noqa: BLE001
+            guides = []
     try:
-        paths = eng.run(body, exception_is_result=True, before_path=make_state_reset(_PK))
+        paths = eng.run(body, exception_is_result=True, before_path=make_state_reset(_PK), guides=guides)
     finally:
         if do_profile:
             sys.setprofile(None)
